@@ -82,7 +82,7 @@ func customCauseReachable(err error, kind int) bool {
 func (n *mnode) String() string {
 	switch n.Leaf {
 	case "custom":
-		return fmt.Sprintf("custom(add#%d,err%d)", n.Reg, n.KeyKind)
+		return fmt.Sprintf("custom(add#%d,err%d,viaAddModules=%v)", n.Reg, n.KeyKind, n.Twice)
 	case "add":
 		return fmt.Sprintf("add#%d", n.Reg)
 	case "remove":
@@ -154,6 +154,9 @@ func genTree(rt *rapid.T, depth int, regs *[]kit.Reg) *mnode {
 			if rapid.IntRange(0, 1).Draw(rt, "customAdds") == 0 {
 				*regs = append(*regs, kit.GenLooseReg(rt, len(*regs), true))
 				cn.Reg = len(*regs) - 1
+				// ... directly, or by applying a module of its own to the collection (a conditional
+				// sub-module helper: when(enabled, modules...))
+				cn.Twice = rapid.Bool().Draw(rt, "customViaAddModules")
 			}
 			n.Children = append(n.Children, cn)
 		case c == 3:
@@ -191,9 +194,13 @@ func (n *mnode) option(w *kit.World) godi.ModuleOption {
 	case "gate":
 		return n.Gate
 	case "custom":
-		reg, kind := n.Reg, n.KeyKind
+		reg, kind, viaModules := n.Reg, n.KeyKind, n.Twice
 		return func(c godi.Collection) error {
-			if reg >= 0 {
+			if reg >= 0 && viaModules {
+				if err := c.AddModules(godi.NewModule("sub", w.ModuleOption(&w.Cfg.Regs[reg]))); err != nil {
+					return err
+				}
+			} else if reg >= 0 {
 				if err := w.Register(c, &w.Cfg.Regs[reg]); err != nil {
 					return err
 				}
@@ -338,6 +345,9 @@ func propC20Modules(col *evid.Collector) func(rt *rapid.T) {
 						refB.add(wb.Cfg.Regs[lf.N.Reg])
 					} else {
 						customRegFailed = true
+						if lf.N.Twice {
+							leaves[i].Path = append(append([]string(nil), lf.Path...), "sub")
+						}
 					}
 				}
 				if errB == nil {
